@@ -138,6 +138,11 @@ def classify(p, d, rec, claims):
                     'converted function diverges (%s: expected %s, observed %s) on an execution where %s' % (
                         d['why'], d['expected'], d['observed'], what))
     exp, obs = d['expected'], d['observed']
+    if d['why'] == 'globals' and any(e == ['u', 0, 0] and o[0] == '?' and 'Undefined' in str(o[1])
+                                     for e, o in zip(d.get('exp_gl', []), d.get('obs_gl', []))):
+        return ('c01:del-of-global-leaves-undefined-placeholder-in-module',
+                '`del` of a variable declared global unbinds the module-level variable in Python; the converted function '
+                'assigns ag__.Undefined to it instead, so the module keeps a binding to a placeholder object')
     xn = rec.get('xfirst', 0) or rec.get('xnode', 0)
     hn = handler_name_assigned_in_nested_statement(p)
     # ... including when Python raises a NameError too, but later (the converted function stops short of expected effects)
